@@ -128,6 +128,8 @@ struct RerunCase {
     n_map: usize,
     zod: bool,
     seam: Seam,
+    /// the dependency visualisation is requested (its two files are part of what must stay untouched)
+    visualize: bool,
     /// two more files that define a type of the same name (`Settings`) with different fields, each
     /// used by a command: whichever definition wins must be the same in every process
     dup: bool,
@@ -151,7 +153,7 @@ fn rerun_project(c: &RerunCase) -> Project {
 /// touch anything. Returns (violations, schedules explored, nontrivial?)
 fn rerun_case(c: &RerunCase, max_sched: usize, free_runs: usize) -> (Vec<Violation>, usize, bool, Vec<String>) {
     let project = rerun_project(c);
-    let cfg = FileCfg { zod: c.zod, type_mappings: mappings(c.n_map), ..Default::default() };
+    let cfg = FileCfg { zod: c.zod, type_mappings: mappings(c.n_map), visualize_deps: c.visualize, ..Default::default() };
     let sb = run::Sandbox::new();
     sbx::write_sources(&sb.root, &project, &cfg);
     let od = sbx::out_dir(&sb.root, &cfg);
@@ -210,13 +212,14 @@ fn rerun_case(c: &RerunCase, max_sched: usize, free_runs: usize) -> (Vec<Violati
                         "{} files, {} type mappings, {} mode, {}: unchanged non-forced re-run under iteration order {:?} at {:?} -> {}; touched: {}",
                         c.n_files, c.n_map, cfg.mode_name(), c.seam.name(), choice, points, run2.status_string(), t.join(", ")
                     ),
-                    json!({"kind":"rerun","n_files":c.n_files,"n_map":c.n_map,"zod":c.zod,"seam":c.seam.name(),"dup":c.dup,"choice":choice}),
+                    json!({"kind":"rerun","n_files":c.n_files,"n_map":c.n_map,"zod":c.zod,"seam":c.seam.name(),"dup":c.dup,"visualize":c.visualize,"choice":choice}),
                 )
                 .field("seam", c.seam.name())
                 .field("mode", cfg.mode_name())
                 .field("files", c.n_files.to_string())
                 .field("mappings", c.n_map.to_string())
                 .field("duplicate_type_name", c.dup.to_string())
+                .field("visualize", c.visualize.to_string())
                 .field("deviating_sites", if deviating.is_empty() { "none".to_string() } else { deviating.join("+") })
                 .rank((c.n_files * 10 + c.n_map) as u64),
             );
@@ -245,7 +248,7 @@ fn rerun_case(c: &RerunCase, max_sched: usize, free_runs: usize) -> (Vec<Violati
                         "{} files, {} type mappings, {} mode, {}: unchanged non-forced re-run in a process with hash seed {} (identity schedule at hooked sites) -> {}; touched: {}",
                         c.n_files, c.n_map, cfg.mode_name(), c.seam.name(), k, r.status_string(), t.join(", ")
                     ),
-                    json!({"kind":"rerun","n_files":c.n_files,"n_map":c.n_map,"zod":c.zod,"seam":c.seam.name(),"dup":c.dup,"choice":"free"}),
+                    json!({"kind":"rerun","n_files":c.n_files,"n_map":c.n_map,"zod":c.zod,"seam":c.seam.name(),"dup":c.dup,"visualize":c.visualize,"choice":"free"}),
                 )
                 .field("seam", c.seam.name())
                 .field("mode", cfg.mode_name())
@@ -396,6 +399,7 @@ pub fn replay(case: &Value) -> Vec<Violation> {
             zod,
             seam,
             dup: case["dup"].as_bool().unwrap_or(false),
+            visualize: case["visualize"].as_bool().unwrap_or(false),
         };
         let want: Vec<usize> = case["choice"].as_array().map(|a| a.iter().map(|x| x.as_u64().unwrap_or(0) as usize).collect()).unwrap_or_default();
         let (vs, _, _, _) = rerun_case(&c, usize::MAX, 12);
@@ -418,7 +422,7 @@ pub fn run(tier: Tier) -> CheckResult {
         for n_map in 0..=max_map {
             for zod in [false, true] {
                 for seam in [Seam::Cli, Seam::Build] {
-                    cases.push(RerunCase { n_files, n_map, zod, seam, dup: false });
+                    cases.push(RerunCase { n_files, n_map, zod, seam, dup: false, visualize: false });
                 }
             }
         }
@@ -426,14 +430,22 @@ pub fn run(tier: Tier) -> CheckResult {
     // a type name defined twice (hooked orders of the 1+2 / 2+2 files, then one process per hash seed)
     for n_files in [1usize, 2] {
         for seam in [Seam::Cli, Seam::Build] {
-            cases.push(RerunCase { n_files, n_map: 0, zod: n_files == 2, seam, dup: true });
+            cases.push(RerunCase { n_files, n_map: 0, zod: n_files == 2, seam, dup: true, visualize: false });
+        }
+    }
+    // with the dependency visualisation requested
+    for n_files in [1usize, 3] {
+        for seam in [Seam::Cli, Seam::Build] {
+            for zod in [false, true] {
+                cases.push(RerunCase { n_files, n_map: 2, zod, seam, dup: false, visualize: true });
+            }
         }
     }
     if tier == Tier::Thorough {
         // 6 files: the S1 site alone (720 orders) with one mapping is still a complete product
         for n_files in [6usize] {
             for seam in [Seam::Cli, Seam::Build] {
-                cases.push(RerunCase { n_files, n_map: 1, zod: false, seam, dup: false });
+                cases.push(RerunCase { n_files, n_map: 1, zod: false, seam, dup: false, visualize: false });
             }
         }
     }
@@ -525,7 +537,7 @@ pub fn run(tier: Tier) -> CheckResult {
         {"kind":"force","cache":"Matching","file_force":false,"flag":true,"seam":"cli"},
         {"kind":"force","cache":"Corrupt","file_force":true,"flag":false,"seam":"build"}
     ]));
-    res.coverage.set("rule", format!("re-run: projects of 1..{} files x 0..{} type mappings x modes x seams (plus projects in which two files define a type of the same name, re-run under 3x as many hash seeds); first run under the identity order, then one unchanged non-forced run of the real binary/build path per iteration order of every hook site the second process consults (full product), with all output mtimes set to a fixed past instant beforehand; oracle: no file's bytes or mtime change, none created or deleted. Since the property requires the cache decision to be independent of the order, identity x all-orders is equivalent to all pairs. Force matrix: cache state x file force x flag x seam x mode x configuration source (standalone typegen.json / plugins.typegen of a discovered tauri.conf.json). A re-run case is non-trivial when the second process consulted a hook site with >= 2 elements.", max_files, max_map));
+    res.coverage.set("rule", format!("re-run: projects of 1..{} files x 0..{} type mappings x modes x seams (plus projects in which two files define a type of the same name, re-run under 3x as many hash seeds; and projects generated with the dependency visualisation); first run under the identity order, then one unchanged non-forced run of the real binary/build path per iteration order of every hook site the second process consults (full product), with all output mtimes set to a fixed past instant beforehand; oracle: no file's bytes or mtime change, none created or deleted. Since the property requires the cache decision to be independent of the order, identity x all-orders is equivalent to all pairs. Force matrix: cache state x file force x flag x seam x mode x configuration source (standalone typegen.json / plugins.typegen of a discovered tauri.conf.json). A re-run case is non-trivial when the second process consulted a hook site with >= 2 elements.", max_files, max_map));
     res.assumptions = vec![
         "hash-iteration orders are owned through the verif-hooks site S1 (file list), explored as a complete product; every other hash iteration of the second process is owned through its hash seeds (getrandom shim, seeds 0..8 quick / 0..24 thorough, three times as many for the duplicate-type-name projects): a deterministic, replayable seed alphabet, not a complete order product".into(),
     ];
